@@ -19,8 +19,14 @@ git apply /tmp/seedcheck.$$.patch; rm -f /tmp/seedcheck.$$.patch
 } > $OUT/confirm.log 2>&1
 cat $OUT/confirm.log
 cd /verif
-git -C /repo apply $OUT/patch.diff || { echo "patch does not apply to /repo"; exit 1; }
-./vcheck $PROP quick --no-evidence > $OUT/check.log 2>&1; RC=$?
-git -C /repo checkout -- .
+if [ "${SEEDCHECK_IN_WORKTREE:-0}" = 1 ]; then
+  # /repo is busy (e.g. seedrun.sh): check the worktree itself, which has the change applied;
+  # seedrun.sh re-runs every stored seed against /repo later
+  ./vcheck $PROP quick --repo $WT --no-evidence > $OUT/check.log 2>&1; RC=$?
+else
+  git -C /repo apply $OUT/patch.diff || { echo "patch does not apply to /repo"; exit 1; }
+  ./vcheck $PROP quick --no-evidence > $OUT/check.log 2>&1; RC=$?
+  git -C /repo checkout -- .
+fi
 echo "== check exit code $RC"; grep -E "^(VIOLATION|SUMMARY|INCONCLUSIVE)" $OUT/check.log | cut -c1-220 | head -12
 echo $RC > $OUT/check.rc
